@@ -268,7 +268,7 @@ inline KV genTridiagCase()
     default:
     {
         const char* t = getenv("VERIF_TIER");
-        n             = (t && std::string(t) == "thorough") ? rpick({1000, 2048, 10000}) : rpick({300, 1000});
+        n             = (t && std::string(t) == "thorough") ? rpick({1000, 1000, 2048, 2048, 2048, 10000}) : rpick({300, 1000});
     }
         break;
     }
